@@ -497,3 +497,17 @@ def run_hz_jobs(hz, command, jobs, nproc=None, timeout=1200, taskset=None, env=N
                             "missing": [j["id"] for j in missing]})
     shutil.rmtree(tmp, ignore_errors=True)
     return rows, crashed
+
+
+def coverage_audit(run, module, cfgs, expected_actions, timeout=1800):
+    """Vacuity guard: run the given configs with -coverage 1 and require every named action to be taken at
+    least once across them (an action never taken means its properties were never exercised)."""
+    total = {}
+    for c in cfgs:
+        r = tlc_ok(run_tlc(module, c, coverage=True, timeout=timeout), "coverage audit " + module)
+        for k, v in r.coverage.items():
+            total[k] = total.get(k, 0) + v
+    missing = [a for a in expected_actions if total.get(a, 0) == 0]
+    if missing:
+        raise InfraError("vacuity: actions never taken in %s: %s" % (module, missing))
+    run.extra.setdefault("action_coverage", {})[module] = {a: total.get(a, 0) for a in expected_actions}
